@@ -167,6 +167,85 @@ def run_inherit(case):
     return {"out": "instance", "problems": problems, "inst": str(x)[:200]}
 
 
+# ---- __validate__ hooks of NESTED classes (oracle-only: the model's hook oracle speaks about the top class): every entry
+# point that BUILDS a nested instance (the Deserializer at every position, from_other_class of a mapping) must have run
+# the nested class's hook; the ones that pass an instance on must not lose it
+NESTED_POS = ["field", "array", "map", "optional", "tuple", "deep", "set-of-tuples-no", "anyof-second"]
+NESTED_ENTRIES = ["deser-bad", "deser-good", "deser-bad-inherited-hook", "ctor-dict-bad", "ctor-good", "clone-override-good", "chain-good",
+                  "from-mapping-bad", "deser-bad-keep-undefined", "deser-bad-second-item"]
+
+
+def nestedhook_cases():
+    return [{"suite": "nestedhook", "pos": p, "entry": e} for p in NESTED_POS if "-no" not in p for e in NESTED_ENTRIES]
+
+
+def run_nestedhook(case):
+    import copy
+    import pickle
+    from typedpy import Structure, Integer, String, Array, Map, Tuple, AnyOf, NoneField, Deserializer
+
+    def __validate__(self):
+        if self.lo is not None and self.hi is not None and self.lo > self.hi:
+            raise ValueError("lo must not exceed hi")
+    base = type("Range0", (Structure,), {"lo": Integer(), "hi": Integer(), "_required": ["lo", "hi"], "__validate__": __validate__})
+    inner = type("Range", (base,), {"tag": String(), "_required": []}) if "inherited" in case["entry"] else base
+    pos = case["pos"]
+    fld = {"field": lambda: inner, "array": lambda: Array[inner], "map": lambda: Map[String(), inner], "optional": lambda: AnyOf[inner, NoneField()],
+           "tuple": lambda: Tuple[inner, Integer()], "deep": lambda: Array[Map[String(), Array[inner]]], "anyof-second": lambda: AnyOf[Integer(), inner]}[pos]()
+    try:
+        outer = type("Outer", (Structure,), {"f": fld, "n": Integer(), "_required": ["f"]})
+    except Exception as e:
+        return {"skip": f"definition: {type(e).__name__}: {e}"[:200]}
+    good, bad = {"lo": 1, "hi": 2}, {"lo": 2, "hi": 1}
+    wrap_doc = {"field": lambda d: d, "array": lambda d: [good, d], "map": lambda d: {"k": d}, "optional": lambda d: d, "tuple": lambda d: [d, 3],
+                "deep": lambda d: [{"a": [good, d]}], "anyof-second": lambda d: d}[pos]
+    wrap_val = {"field": lambda v: v, "array": lambda v: [v], "map": lambda v: {"k": v}, "optional": lambda v: v, "tuple": lambda v: (v, 3),
+                "deep": lambda v: [{"a": [v]}], "anyof-second": lambda v: v}[pos]
+    entry = case["entry"]
+    try:
+        if entry in ("deser-bad", "deser-bad-inherited-hook"):
+            x = Deserializer(outer).deserialize({"f": wrap_doc(bad), "n": 1})
+        elif entry == "deser-bad-keep-undefined":
+            x = Deserializer(outer).deserialize({"f": wrap_doc(dict(bad, zz=1)), "n": 1, "zz": 2}, keep_undefined=True)
+        elif entry == "deser-bad-second-item":
+            x = Deserializer(outer).deserialize({"f": wrap_doc(bad), "n": 0})
+        elif entry == "deser-good":
+            x = Deserializer(outer).deserialize({"f": wrap_doc(good), "n": 1})
+        elif entry == "ctor-dict-bad":
+            x = outer(f=wrap_val(bad), n=1)          # a plain dict where an instance is expected: must be refused (or built through the hook)
+        elif entry == "ctor-good":
+            x = outer(f=wrap_val(inner(**good)), n=1)
+        elif entry == "clone-override-good":
+            x = outer(f=wrap_val(inner(**good)), n=1).shallow_clone_with_overrides(f=wrap_val(inner(lo=0, hi=0)))
+        elif entry == "chain-good":
+            x = copy.copy(copy.deepcopy(outer(f=wrap_val(inner(**good)), n=1))).shallow_clone_with_overrides(n=2).cast_to(outer)   # (classes made with type() cannot be pickled by name)
+        elif entry == "from-mapping-bad":
+            x = outer.from_other_class({"f": wrap_val(bad), "n": 1})
+        else:
+            raise AssertionError(entry)
+    except Exception as e:
+        return {"out": "raised", "exc": type(e).__name__, "documented_exc": isinstance(e, (TypeError, ValueError)), "msg": str(e)[:160]}
+    problems = []
+
+    def walk(v, path):
+        if isinstance(v, Structure):
+            d = {k: w for k, w in v.__dict__.items() if not k.startswith("_")}
+            if isinstance(v, base) and d.get("lo") is not None and d.get("hi") is not None and d["lo"] > d["hi"]:
+                problems.append(f"{path}: nested {type(v).__name__}(lo={d['lo']}, hi={d['hi']}) is rejected by its own __validate__ hook")
+            for k, w in d.items():
+                walk(w, f"{path}.{k}")
+        elif isinstance(v, dict):
+            if "lo" in v and "hi" in v and not isinstance(v, Structure):
+                problems.append(f"{path}: holds a plain dict {dict(v)!r} where the declaration says {inner.__name__}")
+            for k, w in v.items():
+                walk(w, f"{path}[{k!r}]")
+        elif isinstance(v, (list, tuple, set, frozenset)):
+            for i, w in enumerate(v):
+                walk(w, f"{path}[{i}]")
+    walk(x, "x")
+    return {"out": "instance", "problems": problems, "inst": str(x)[:200]}
+
+
 def cases(rng, tier):
     base = S.gen_cases(rng, tier, 90 if tier == "quick" else 1200) + S.default_cases(random.Random(str(rng.getstate()[1][0])), tier, 150 if tier == "quick" else 2500) + S.crosstype_cases() + S.hook_cases(random.Random("hook" + str(rng.getstate()[1][0])), tier, 120 if tier == "quick" else 2000) + inherit_cases(rng, 150 if tier == "quick" else 3000)
     # the extension field kinds (SizedString, IPV4, HostName, DateString, TimeString, JSONString) inside the modelled region:
@@ -178,7 +257,7 @@ def cases(rng, tier):
     dec = S.decimal_cases(random.Random("dec" + str(rng.getstate()[1][0])), tier, 40 if tier == "quick" else 500)
     # the Deserializer as an entry point of the chain (Sem/EntryD.lean)
     dz = S.deser_chain_cases(random.Random("dz" + str(rng.getstate()[1][0])), tier, 150 if tier == "quick" else 2500)
-    return base + ext + tp + dec + dz
+    return base + ext + tp + dec + dz + nestedhook_cases()
 
 
 def search_cases(rng, tier):
@@ -188,10 +267,16 @@ def search_cases(rng, tier):
 
 
 def _i(case):
-    return case.get("suite") == "inherit"
+    return case.get("suite") in ("inherit", "nestedhook")
+
+
+def _nh(case):
+    return case.get("suite") == "nestedhook"
 
 
 def run_impl(case):
+    if _nh(case):
+        return run_nestedhook(case)
     return run_inherit(case) if _i(case) else S.run_impl(case)
 
 
@@ -200,6 +285,8 @@ def line(case, impl):
 
 
 def tags(case, impl, model):
+    if _nh(case):
+        return ["stream:nestedhook", f"nestedhook:{case['entry']}:{impl.get('out', 'skipped')}"]
     if _i(case):
         return ["stream:inherit", f"inherit:{case['entry']}:{impl.get('out', 'skipped')}"]
     return S.tags(case, impl, model)
@@ -214,6 +301,15 @@ def describe(case, impl, model):
 
 
 def judge(case, impl, model):
+    if _nh(case):
+        fails = []
+        for pr in impl.get("problems", []):
+            fails.append((f"ill-formed-instance:nested-hook:{case['entry']}:{case['pos']}", f"{case['entry']} with the nested class at position {case['pos']} returned {impl.get('inst')}: {pr}"))
+        if impl.get("out") == "raised" and not impl.get("documented_exc"):
+            fails.append((f"error-class:nested-hook:{case['entry']}:{impl['exc']}", f"{case['entry']} ({case['pos']}) raised {impl['exc']}: {impl.get('msg')}"))
+        if impl.get("out") == "raised" and "good" in case["entry"]:
+            fails.append((f"rejects-valid:nested-hook:{case['entry']}:{case['pos']}", f"{case['entry']} ({case['pos']}) raised {impl['exc']}: {impl.get('msg')}"))
+        return None, fails
     if _i(case):
         fails = []
         for pr in impl.get("problems", []):
